@@ -131,3 +131,27 @@ Theorem C03_rk4_run_discipline :
     (Rk4.r_status r = Success -> Rk4.r_x r = xend).
 Proof. exact @Rk4Real.loop_discipline. Qed.
 Print Assumptions C03_rk4_run_discipline.
+
+(* ---------------- Radau and BDF: honest Success (real semantics, whole low-level solver) ----------------
+   For ANY right-hand side, Jacobian, mass matrix, callback, tolerances and parameters: if the solver returns Success,
+   the abscissa it returns is xend.  Radau: by the invariant "while `last` is set, x + h = xend", every path that changes h
+   clears the flag (the seeded change C03-c removed one reset and broke exactly this theorem).  BDF: Success is returned
+   only from the two tests that compare the new abscissa with xend; direction = signum(xend - x0) = +-1. *)
+Require IVP.model.Radau IVP.model.Bdf IVP.proofs.RadauReal IVP.proofs.BdfReal.
+
+Theorem C03_radau_success_means_xend :
+  forall (H : Type) (P : Radau.params) f jacf mass x0 y0 xend rtol atol
+         (cb : H -> R -> R -> list R -> option (list R * R * R) -> H * flag R * list R) cb0 fuel r,
+    Radau.solve Rops P f jacf mass x0 y0 xend rtol atol cb cb0 fuel = Some r ->
+    Radau.r_status r = Success -> Radau.r_x r = xend.
+Proof. exact @RadauReal.solve_status. Qed.
+Print Assumptions C03_radau_success_means_xend.
+
+Theorem C03_bdf_success_means_xend :
+  forall (H : Type) (P : Bdf.params) f jacf x0 y0 xend rtol atol
+         (cb : H -> R -> R -> list R -> option (list R * R * R) -> H * flag R * list R) cb0 fuel r,
+    y0 <> nil ->
+    Bdf.solve Rops P f jacf x0 y0 xend rtol atol cb cb0 fuel = Some r ->
+    Bdf.r_status r = Success -> Bdf.r_x r = xend.
+Proof. exact @BdfReal.solve_status. Qed.
+Print Assumptions C03_bdf_success_means_xend.
